@@ -17,7 +17,8 @@ class EvMonWorld(World):
     real_components = ("event.Monitor", "event.EventMap", "event.Source")
     stub_components = ("event source lines, enable and clear masks (seeded agent)",)
     fault_kinds = ("clear_and_trigger_same_cycle", "one_cycle_pulse", "edges_in_consecutive_cycles",
-                   "clear_of_non_pending", "repeated_add", "foreign_object", "add_after_freeze")
+                   "clear_of_non_pending", "repeated_add", "foreign_object", "add_after_freeze",
+                   "second_instance_in_process")
     assumptions = (
         "Amaranth's Python RTL simulator executes the elaborated netlist faithfully",
         "'pending becomes set the cycle after its source triggers' is read as a registered update "
@@ -34,7 +35,7 @@ class EvMonWorld(World):
     def gen_config(self, rng, prop):
         n = rng.choice([0, 1, 1, 2, 3, 4, 5, 8, 12, 17, 33])
         return {"srcs": [rng.choice(TRIGGERS) for _ in range(n)],
-                "trigger": rng.choice(TRIGGERS)}
+                "trigger": rng.choice(TRIGGERS), "decoy": int(rng.chance(0.1))}
 
     def gen_ops(self, rng, config, prop):
         n = len(config["srcs"])
@@ -145,6 +146,11 @@ class EvMonWorld(World):
         dut = hw.must_accept("C13", f"event.Monitor({len(order)} sources, trigger={config['trigger']})",
                              event.Monitor, em, trigger=config["trigger"])
         check_map(step + 1)     # constructing the monitor must not renumber anything
+        if config.get("decoy"):
+            em2 = event.EventMap()
+            em2.add(event.Source(trigger="rise", path=("decoy",)))
+            hw.elaborate_once(event.Monitor(em2, trigger="fall"))
+            stats.fault("second_instance_in_process")
         n = len(order)
         trigs = [s.trigger.value for s in order]
         model = MonitorModel(trigs)
